@@ -10,11 +10,14 @@ for f in sorted(glob.glob(os.path.join(V, 'seeded', '*', 'meta.json'))):
     notes = m.get('needs_to_manifest', '')
     title = next((l.strip('# ').strip() for l in notes.splitlines() if l.strip()), '')
     title = title.split('—', 1)[-1].split(' - ', 1)[-1].strip()[:110]
-    det = []
-    for c, r in sorted(m.get('checks', {}).items()):
-        mech = (r.get('mechanisms') or [''])[0].replace('mechanism: ', '').split('  (seen')[0][:90]
-        det.append(f"{c}: {'**caught**' if r.get('detected') else 'missed'} {('`' + mech + '`') if mech else ''}")
-    rows.append(f"| {m['id']} | {title} | {'<br>'.join(det)} | {m.get('strengthened', '')} |")
+    own = m['breaks_property']
+    r = m.get('checks', {}).get(own, {})
+    mech = (r.get('mechanisms') or [''])[0].replace('mechanism: ', '').split('  (seen')[0][:90]
+    det = f"{own}: {'**caught**' if r.get('detected') else 'missed'} {('`' + mech + '`') if mech else ''}"
+    others = sorted(c for c, r_ in m.get('checks', {}).items() if c != own and r_.get('detected'))
+    if others:
+        det += '<br>also caught by ' + ', '.join(others)
+    rows.append(f"| {m['id']} | {title} | {det} | {m.get('strengthened', '')} |")
 print('| seed | change (one line from the author\'s notes) | quick check result (first mechanism reported) | check strengthened because of it |')
 print('|---|---|---|---|')
 print('\n'.join(rows))
